@@ -98,6 +98,9 @@ func lineToken(s string) string {
 	if s == "" {
 		return "E"
 	}
+	if s == longLine {
+		return "L"
+	}
 	for i, b := range slashBad {
 		if s == b {
 			return "x" + strconv.Itoa(i)
@@ -285,9 +288,15 @@ func (c fileCase) input() string {
 	return fmt.Sprintf("C14 psfile %d %s", c.self, joinOr(c.lines, ","))
 }
 
+// a line of exactly 64 KiB that starts like an address
+var longLine = "/ip4/" + strings.Repeat("1", 64*1024-5)
+
 func lineText(tok string) (string, bool) {
 	if tok == "E" {
 		return "", true
+	}
+	if tok == "L" {
+		return longLine, true
 	}
 	if len(tok) < 2 {
 		return "", false
@@ -445,8 +454,16 @@ func genFileCase(r *common.Rng, k, total int) fileCase {
 	}
 	badPct := []int{0, 20, 50}[r.Intn(3)]
 	interleave := r.Chance(1, 5)
+	longAt := -1
+	if r.Chance(1, 25) {
+		longAt = r.Intn(n + 1)
+	}
 	var peers []int
 	for len(c.lines) < n {
+		if len(c.lines) >= longAt && longAt >= 0 {
+			c.lines = append(c.lines, "L")
+			longAt = -1
+		}
 		if r.Chance(badPct, 100) {
 			switch r.Intn(4) {
 			case 0:
